@@ -6,11 +6,11 @@ Open Scope Z_scope.
 
 (* the root handling of TaborProgram.__init__ *)
 Definition root_of (prog : loop) : loop :=
-  if (l_rep prog >? 1) || (depth prog =? 0) then Loop 1 false None [prog] else prog.
+  if (l_rep prog >? 1) || l_vol prog || (depth prog =? 0) then Loop 1 plain None [prog] else prog.
 
 Lemma root_of_ok prog : good prog = true -> good (root_of prog) = true /\ flatten (root_of prog) = flatten prog.
 Proof.
-  intros G. unfold root_of. destruct ((l_rep prog >? 1) || (depth prog =? 0)); [|auto].
+  intros G. unfold root_of. destruct ((l_rep prog >? 1) || l_vol prog || (depth prog =? 0)); [|auto].
   apply (encapsulate_ok _ G).
 Qed.
 
@@ -206,10 +206,11 @@ Definition ex_cfg (mn mx : Z) : cfg :=
   {| c_nchan := 2; c_nmark := 2; c_cpp := 2; c_cha := Some 0; c_chb := None; c_ma := Some 2; c_mb := None;
      c_amp_a := 1; c_amp_b := 1; c_off_a := 0; c_off_b := 0; c_tr_a := (1, 0)%Q; c_tr_b := (1, 0)%Q;
      c_min := mn; c_max := mx; c_mode := None |}.
-Definition ex_leaf (w : nat) (r : Z) : loop := Loop r false (Some w) [].
+Definition ex_leaf (w : nat) (r : Z) : loop := Loop r plain (Some w) [].
 Definition ex_prog : loop :=
-  Loop 1 false None [Loop 1 true None [Loop 1 false None [ex_leaf 0 1]]; Loop 3 false None [ex_leaf 1 1; ex_leaf 0 1];
-                     ex_leaf 1 2; Loop 1 false None [ex_leaf 1 1; ex_leaf 0 2; ex_leaf 0 1]].
+  Loop 1 plain None [Loop 1 {| has_meas := true; is_vol := false |} None [Loop 1 plain None [ex_leaf 0 1]];
+                     Loop 3 plain None [ex_leaf 1 1; ex_leaf 0 1];
+                     ex_leaf 1 2; Loop 1 plain None [ex_leaf 1 1; ex_leaf 0 2; ex_leaf 0 1]].
 
 Definition ex_accepts : bool :=
   match compile (ex_cfg 3 5) ex_tbl ex_prog, spec (ex_cfg 3 5) ex_tbl ex_prog with
@@ -230,7 +231,7 @@ Lemma ex_good : good ex_prog = true.
 Proof. reflexivity. Qed.
 
 (* SINGLE mode never looks at min_seq_len / max_seq_len *)
-Definition ex_single : loop := Loop 1 false None [ex_leaf 0 1].
+Definition ex_single : loop := Loop 1 plain None [ex_leaf 0 1].
 Lemma single_mode_tables_unchecked :
   exists o, compile (ex_cfg 3 4) ex_tbl ex_single = Ok o /\ o_advanced o = false /\ tables_ok (ex_cfg 3 4) o = false.
 Proof.
